@@ -150,6 +150,19 @@ def inside_H(variants):
     st["variants_inside_H"] = sum(1 for x in per.values() if x)
     return st
 
+def has_tie(base):
+    """two commits created on the same MLS state with the same wrapper timestamp (the automatic commits of a leave all carry the
+    harness' fixed timestamp): the MIP-03 comparison falls back to the event ids, which are random in every run — the base run is
+    not a function of its script and cannot be compared with a second execution"""
+    seen = set()
+    for e in base.events.values():
+        if e.get("kind") == "commit" and e.get("rewrap_of") is None and e.get("parent_token") is not None:
+            k = (e["parent_token"], e.get("ts"))
+            if k in seen:
+                return True
+            seen.add(k)
+    return False
+
 def gen_bases(seed, n, tier, rng):
     """a third plain race histories, a third with the leave / proposal flow on, a third deep forks (rollbacks over several
     epochs, late messages at the boundary of the look-back windows)"""
@@ -179,6 +192,9 @@ def run(tier, seed):
              "inserted_kinds": {}, "inserted_answers": {}, "bases_with_rollback": 0}
     for b in bases:
         if getattr(b, "crashed", None):
+            continue
+        if has_tie(b):
+            stats["bases_with_timestamp_tie_dropped"] = stats.get("bases_with_timestamp_tie_dropped", 0) + 1
             continue
         stats["bases"] += 1
         eps = {}
@@ -268,6 +284,9 @@ def run_refused(tier, seed):
              "bases_without_candidate": 0, "removed_answers": {}, "removed_kinds": {}}
     for b in bases:
         if getattr(b, "crashed", None):
+            continue
+        if has_tie(b):
+            stats["bases_with_timestamp_tie_dropped"] = stats.get("bases_with_timestamp_tie_dropped", 0) + 1
             continue
         stats["bases"] += 1
         for v_i in range(1 if quick else 3):
